@@ -4,9 +4,9 @@ from __future__ import annotations
 import ast
 
 from ..core import Ctx
-from ..match import arg, call_name, calls, facts_at, local_defs, resolve, single_def, stores
+
+from ..match import Fact, arg, call_name, calls, fact_of, facts_at, is_param, local_defs, resolve, single_def, stores
 from ..model import AnalysisError, FuncInfo, chain, const_value, enclosing_stmt, norm, strip_cast, walk_no_nested
-from .c04 import _has_cond, _path_with
 
 LEVEL = "other"
 EXPLANATION = (
@@ -14,7 +14,9 @@ EXPLANATION = (
     "inactivity (and age) test on every element, do_circuits calls it on every path and is registered with a positive "
     "interval; every remove_* reaches the table pop on every normal path after its bounded sleep, the exit variant closes "
     "the socket and its task manager; destroy is forwarded on exactly the far side; join limit; relay_early budget on the "
-    "relay and the originator; the build retry count strictly decreases and gives up by removing the circuit. The time "
+    "relay and the originator (decided on the CFG under the assumption 'flag set and budget used up', so extra conjuncts are "
+    "seen); the build retry count strictly decreases and gives up by removing the circuit, and the retry cache is released "
+    "only for a READY circuit, after the hop's answer was verified, or when a new one is armed / the circuit removed. The time "
     "bound itself and loss patterns are not explored (timers/schedules)."
 )
 
@@ -29,9 +31,260 @@ SWEEP = {
 }
 
 
-def _is_now_minus(e: ast.AST, what: str) -> bool:
-    """time.time() - <what>"""
-    return isinstance(e, ast.BinOp) and isinstance(e.op, ast.Sub) and norm(e.left) in ("time.time()", "time()") and norm(e.right).startswith(what)
+# ------------------------------------------------------------------------------------ spelling-independent guards
+def _clone(n):
+    """Copy of an expression tree over its syntactic fields only (the engine's parent links are not followed)."""
+    if isinstance(n, ast.AST):
+        return n.__class__(**{f: _clone(getattr(n, f, None)) for f in n._fields})
+    if isinstance(n, list):
+        return [_clone(x) for x in n]
+    return n
+
+
+class _Expand(ast.NodeTransformer):
+    """Replace single-assignment locals by their defining expression and drop cast(); used on a deep copy only."""
+
+    def __init__(self, fi: FuncInfo, depth: int = 3) -> None:
+        self.fi, self.depth = fi, depth
+
+    def visit_Call(self, n: ast.Call):
+        s = strip_cast(n)
+        if s is not n:
+            return self.visit(s)
+        return self.generic_visit(n)
+
+    def visit_Name(self, n: ast.Name):
+        if not isinstance(n.ctx, ast.Load) or self.depth <= 0:
+            return n
+        d = single_def(self.fi, n.id)
+        if d is None or d[1] is not None:
+            return n
+        v = strip_cast(d[0])
+        if any(isinstance(x, (ast.Await, ast.Yield, ast.YieldFrom, ast.NamedExpr, ast.Lambda)) for x in ast.walk(v)):
+            return n
+        return _Expand(self.fi, self.depth - 1).visit(_clone(v))
+
+
+def _texts(fi: FuncInfo, e: ast.AST | None) -> list[str]:
+    """Spellings of e: as written (cast-free) and with local aliases expanded (`delay = self.settings.x` ... `delay`)."""
+    if e is None:
+        return [""]
+    out = [norm(strip_cast(e))]
+    t = norm(_Expand(fi).visit(_clone(e)))
+    if t not in out:
+        out.append(t)
+    return out
+
+
+def _expand_text(fi: FuncInfo, text: str) -> str:
+    return _texts(fi, ast.parse(text, mode="eval").body)[-1] if text else text
+
+
+def _K(op: str, left: str, right: str = "") -> tuple[str, str, str]:
+    """Canonical key of an atomic condition; `eq` is symmetric, `lt` is `left < right` (match.fact_of orientation)."""
+    if op == "eq":
+        left, right = sorted((left, right))
+    return (op, left, right)
+
+
+def _keys(fi: FuncInfo, atom: ast.AST) -> list[tuple[tuple[str, str, str], bool]]:
+    """(key, polarity) candidates for one CFG atom: the atom is true iff key holds == polarity."""
+    f = fact_of(strip_cast(atom), True)
+    out = []
+    for l in _texts(fi, f.left):
+        for r in _texts(fi, f.right):
+            k = (_K(f.op, l, r), f.pos)
+            if k not in out:
+                out.append(k)
+    return out
+
+
+def _and3(a, b):
+    return False if a is False or b is False else True if a is True and b is True else None
+
+
+class _World:
+    """
+    The function's CFG under an assumption on named atomic conditions ({key: bool}).  Conditions are evaluated
+    three-valued (True / False / None = unknown) after canonicalisation (negation, de Morgan and nesting are already
+    split by the CFG; flipped comparisons, `!=`, `not a < b`, local aliases by _keys), locals and attributes assigned
+    in the function are followed through their reaching definitions.  An edge is removed only when its condition
+    definitely has the other value, so reachability here over-approximates the runs that satisfy the assumption.
+    """
+
+    def __init__(self, fi: FuncInfo, cfg, assume: dict) -> None:
+        self.fi, self.cfg, self.assume = fi, cfg, dict(assume)
+        for (op, l, r), v in assume.items():                        # the same keys with this function's aliases expanded
+            self.assume.setdefault(_K(op, _expand_text(fi, l), _expand_text(fi, r)), v)
+        self._memo: dict = {}
+        self._defs: dict = {}
+
+    # -- edges
+    def _cut(self, u, lab, deep: bool) -> bool:
+        if u.kind != "cond" or not isinstance(lab, bool):
+            return False
+        k = (u.id, deep)
+        if k not in self._memo:
+            self._memo[k] = None            # cycle guard: unknown
+            self._memo[k] = self.ev(u.ast, u, deep)
+        vals = self._memo[k]
+        return vals is not None and (vals == {True} and lab is False or vals == {False} and lab is True)
+
+    def cut_direct(self, u, v, lab) -> bool:
+        return self._cut(u, lab, False)
+
+    def cut(self, u, v, lab) -> bool:
+        return self._cut(u, lab, True)
+
+    def reach(self, starts=None, *, cut_nodes=(), follow_exc: bool = True):
+        return self.cfg.reach(starts, cut_nodes=cut_nodes, cut_edge=self.cut, follow_exc=follow_exc)
+
+    def reaches(self, site: ast.AST, starts=None, *, cut_nodes=(), follow_exc: bool = True) -> bool:
+        r = self.reach(starts, cut_nodes=cut_nodes, follow_exc=follow_exc)
+        return any(n in r for n in self.cfg.nodes_for(site))
+
+    # -- definitions of a chain (`x`, `cell.relay_early`) inside the function
+    def defs(self, c: str):
+        if c not in self._defs:
+            out, seen = [], set()
+            for st, t in stores(self.fi, lambda ch, c=c: ch == c):
+                if id(st) in seen:
+                    continue
+                seen.add(id(st))
+                if isinstance(st, ast.Assign) and len(st.targets) == 1 and st.targets[0] is t:
+                    out.append((st, st.value))
+                elif isinstance(st, ast.AnnAssign) and st.value is not None and st.target is t:
+                    out.append((st, st.value))
+                else:
+                    out.append((st, None))
+            if "." not in c and "[" not in c and "(" not in c:
+                for st, v, idx in local_defs(self.fi, c):
+                    if id(st) not in seen:
+                        seen.add(id(st))
+                        out.append((st, v if idx is None and isinstance(st, (ast.Assign, ast.AnnAssign)) else None))
+            self._defs[c] = out
+        return self._defs[c]
+
+    def _def_nodes(self, c: str):
+        return {n for st, _ in self.defs(c) for n in self.cfg.nodes_for(st)}
+
+    def _stable(self, e: ast.AST, node) -> bool:
+        """No re-definition of an operand of e can reach `node` (so the assumed value is the one evaluated there)."""
+        for x in ast.walk(e):
+            if not isinstance(x, (ast.Name, ast.Attribute, ast.Subscript)):
+                continue
+            c = chain(x)
+            if c is None or not self.defs(c):
+                continue
+            if isinstance(x, ast.Name) and not is_param(self.fi, c) and len(self.defs(c)) == 1:
+                continue                                            # one binding: every use sees the same definition
+            for d in self._def_nodes(c):
+                if d is not node and node in self.cfg.reach([v for v, lab in d.succ if lab != "exc"]):
+                    return False
+        return True
+
+    def atom(self, e: ast.AST):
+        for key, pol in _keys(self.fi, e):
+            if key in self.assume:
+                return self.assume[key] if pol else not self.assume[key]
+        return None
+
+    # -- evaluation
+    def ev(self, e: ast.AST, node, deep: bool = True, depth: int = 0) -> set:
+        e = strip_cast(e)
+        if isinstance(e, ast.Constant):
+            return {bool(e.value)}
+        if isinstance(e, ast.UnaryOp) and isinstance(e.op, ast.Not):
+            return {None if v is None else not v for v in self.ev(e.operand, node, deep, depth)}
+        if isinstance(e, ast.BoolOp):
+            is_and = isinstance(e.op, ast.And)
+            acc = {True}
+            for v in e.values:
+                vs = self.ev(v, node, deep, depth)
+                if not is_and:
+                    vs = {None if x is None else not x for x in vs}
+                acc = {_and3(a, b) for a in acc for b in vs}
+            return acc if is_and else {None if x is None else not x for x in acc}
+        if isinstance(e, ast.IfExp):
+            t = self.ev(e.test, node, deep, depth)
+            out = set()
+            if t - {False}:
+                out |= self.ev(e.body, node, deep, depth)
+            if t - {True}:
+                out |= self.ev(e.orelse, node, deep, depth)
+            return out
+        c = chain(e) if isinstance(e, (ast.Name, ast.Attribute)) else None
+        if c is not None and self.defs(c) and (isinstance(e, ast.Name) or not self._stable(e, node)):
+            # a local, or an attribute that is (re)assigned on a path to this use: its value is what was assigned
+            if not deep or depth >= 4:
+                return {None}
+            return self._reaching(c, e, node, depth)
+        if not self._stable(e, node):
+            return {None}
+        return {self.atom(e)}
+
+    def _reaching(self, c: str, e: ast.AST, node, depth: int) -> set:
+        dn = self._def_nodes(c)
+        cutn = dn - {node}
+        out = set()
+        if node in self.cfg.reach(cut_nodes=cutn, cut_edge=self.cut_direct) and ("." in c or is_param(self.fi, c)):
+            out.add(self.atom(e))                                   # value on entry
+        live = self.cfg.reach(cut_edge=self.cut_direct)
+        for st, val in self.defs(c):
+            for d in self.cfg.nodes_for(st):
+                if d not in live:
+                    continue                                        # this definition is not executed under the assumption
+                starts = [v for v, lab in d.succ if lab != "exc"]
+                if node in starts or node in self.cfg.reach(starts, cut_nodes=cutn, cut_edge=self.cut_direct):
+                    out |= {None} if val is None else self.ev(val, d, True, depth + 1)
+        return out or {None}
+
+
+def _is_increment(st: ast.stmt, target: str) -> bool:
+    """`target += 1` or `target = target + 1` / `1 + target`."""
+    if isinstance(st, ast.AugAssign):
+        return norm(st.target) == target and isinstance(st.op, ast.Add) and const_value(st.value) == 1
+    if isinstance(st, ast.Assign) and len(st.targets) == 1 and norm(st.targets[0]) == target and isinstance(st.value, ast.BinOp) \
+            and isinstance(st.value.op, ast.Add):
+        a, b = st.value.left, st.value.right
+        return norm(a) == target and const_value(b) == 1 or norm(b) == target and const_value(a) == 1
+    return False
+
+
+def _snapshot_items_of(it: ast.AST) -> str | None:
+    """`list(T.items())`, `tuple(...)`, `sorted(...)`, `T.copy().items()`, `dict(T).items()` -> chain of T (a copy is iterated)."""
+    it = strip_cast(it)
+    if isinstance(it, ast.Call) and isinstance(it.func, ast.Name) and it.func.id in ("list", "tuple", "sorted") and len(it.args) == 1:
+        inner = strip_cast(it.args[0])
+        if isinstance(inner, ast.Call) and isinstance(inner.func, ast.Attribute) and inner.func.attr == "items" and not inner.args:
+            base = inner.func.value
+            return _snapshot_base(base) or chain(base)
+        return None
+    if isinstance(it, ast.Call) and isinstance(it.func, ast.Attribute) and it.func.attr == "items" and not it.args:
+        return _snapshot_base(it.func.value)
+    return None
+
+
+def _snapshot_base(base: ast.AST) -> str | None:
+    if isinstance(base, ast.Call) and isinstance(base.func, ast.Attribute) and base.func.attr == "copy" and not base.args:
+        return chain(base.func.value)
+    if isinstance(base, ast.Call) and isinstance(base.func, ast.Name) and base.func.id == "dict" and len(base.args) == 1 and not base.keywords:
+        return chain(base.args[0])
+    return None
+
+
+def _older_than(fi: FuncInfo, f, stamp: str, limit_ok) -> bool:
+    """Fact f says `stamp < time.time() - LIMIT` (or the same inequality as `LIMIT < time.time() - stamp`), limit_ok(LIMIT text)."""
+    if f.op != "lt" or not f.pos:
+        return False
+    for small in _texts(fi, f.left):
+        for big in _texts(fi, f.right):
+            be = ast.parse(big, mode="eval").body
+            if not (isinstance(be, ast.BinOp) and isinstance(be.op, ast.Sub) and norm(be.left) in ("time.time()", "time()")):
+                continue
+            if small == stamp and limit_ok(norm(be.right)) or norm(be.right) == stamp and limit_ok(small):
+                return True
+    return False
 
 
 def rule_sweep(ctx: Ctx) -> None:
@@ -40,31 +293,36 @@ def rule_sweep(ctx: Ctx) -> None:
     cfg = ctx.cfg(fi)
     loops = [l for l in walk_no_nested(fi.node) if isinstance(l, ast.For)]
     for table, (remover, need_age) in SWEEP.items():
-        lp = [l for l in loops if norm(l.iter) == f"list({table}.items())"]
+        lp = [l for l in loops if _snapshot_items_of(resolve(fi, l.iter)) == table]
         ctx.check(len(lp) == 1, "sweep-coverage", fi, fi.node, f"do_remove iterates a copy of {table}",
                   f"do_remove has no loop over list({table}.items()): entries of that table are never swept")
         if len(lp) != 1:
             continue
         l = lp[0]
-        idv, objv = (l.target.elts[0].id, l.target.elts[1].id) if isinstance(l.target, ast.Tuple) else (None, None)
+        idv, objv = (l.target.elts[0].id, l.target.elts[1].id) if isinstance(l.target, ast.Tuple) and len(l.target.elts) == 2 \
+            and all(isinstance(e, ast.Name) for e in l.target.elts) else (None, None)
         # no early exit from the sweep
         early = [n for n in ast.walk(l) if isinstance(n, (ast.Break, ast.Return))]
         ctx.check(not early, "sweep-coverage", fi, l, f"sweep over {table} examines every entry", f"the sweep over {table} can stop early")
         rem = [c for c in ast.walk(l) if isinstance(c, ast.Call) and chain(c.func) == f"self.{remover}"]
         inactive = age = False
+
+        def is_inactive(g) -> bool:
+            return _older_than(fi, g, f"{objv}.last_activity", lambda t: t == "self.settings.max_time_inactive")
+
         for c in rem:
-            if chain(arg(c, 0)) != idv:
+            if chain(resolve(fi, arg(c, 0))) != idv:
                 continue
             fs = facts_at(cfg, c)
             for f in fs:
                 # the test must be the *only* condition of the removal (besides `state == READY` for own circuits and the
                 # negation of the earlier inactivity branch): an extra conjunct lets abandoned entries live forever
-                others = [g for g in fs if g is not f and not (g.op == "eq" and g.pos and norm(g.left) == f"{objv}.state" and norm(g.right) == "CIRCUIT_STATE_READY")
-                          and not (g.op == "lt" and not g.pos and norm(g.left) == f"{objv}.last_activity")]
-                if f.op == "lt" and f.pos and norm(f.left) == f"{objv}.last_activity" and _is_now_minus(f.right, "self.settings.max_time_inactive") \
-                        and norm(f.right) == "time.time() - self.settings.max_time_inactive" and not others:
+                others = [g for g in fs if g is not f
+                          and not (g.op == "eq" and g.pos and {norm(g.left), norm(g.right)} == {f"{objv}.state", "CIRCUIT_STATE_READY"})
+                          and not (g.op == "lt" and not g.pos and is_inactive(Fact("lt", g.left, g.right, True, g.atom)))]
+                if is_inactive(f) and not others:
                     inactive = True
-                if f.op == "lt" and f.pos and norm(f.left) == f"{objv}.creation_time" and _is_now_minus(f.right, f"self.get_max_time({idv})") and not others:
+                if _older_than(fi, f, f"{objv}.creation_time", lambda t: t == f"self.get_max_time({idv})") and not others:
                     age = True
         ctx.check(inactive, "sweep-coverage", fi, l, f"{table}: entry removed when last_activity < now - max_time_inactive",
                   f"entries of {table} are not removed by inactivity: an abandoned entry lives forever if the destroy is lost")
@@ -105,25 +363,36 @@ def rule_remove_removes(ctx: Ctx) -> None:
         fi = repo.method("TunnelCommunity", meth, TC)
         cfg = ctx.cfg(fi)
         cid = fi.params()[1]
-        pops = [c for c in calls(fi, f"{table}.pop") if chain(arg(c, 0)) == cid]
-        ctx.check(bool(pops), "remove-removes", fi, fi.node, f"{meth} pops {table}[{cid}]", f"{meth} never removes the entry from {table}")
-        if not pops:
+        pops = [c for c in calls(fi, f"{table}.pop") if chain(resolve(fi, arg(c, 0))) == cid]
+        dels = [st for st, t in stores(fi, f"{table}[]") if isinstance(st, ast.Delete) and isinstance(t, ast.Subscript)
+                and chain(resolve(fi, t.slice)) == cid]
+        ctx.check(bool(pops or dels), "remove-removes", fi, fi.node, f"{meth} pops {table}[{cid}]", f"{meth} never removes the entry from {table}")
+        if not (pops or dels):
             continue
-        pn = [n for p in pops for n in cfg.nodes_for(p)]
-        # returns that are allowed to skip the pop: "unknown entry" (X is None)
-        skip = []
-        for r in [r for r in walk_no_nested(fi.node) if isinstance(r, ast.Return)]:
-            fs = facts_at(cfg, r)
-            if any(f.op == "is" and f.pos and isinstance(f.right, ast.Constant) and f.right.value is None
-                   and isinstance(resolve(fi, f.left), ast.Call) and chain(resolve(fi, f.left).func) == f"{table}.get" for f in fs):
-                skip.extend(cfg.nodes_for(r))
-        r = cfg.reach(cut_nodes=pn + skip, follow_exc=False)
-        ctx.check(cfg.exit not in r, "remove-removes", fi, pops[0], f"every normal path of {meth} reaches {table}.pop({cid}, None)",
+        pn = [n for p in pops + dels for n in cfg.nodes_for(p)]
+
+        # the only edges that may lead around the removal say "there is no such entry": `T.get(id) is None`, a falsy
+        # `T.get(id)` (entries are objects), `id not in T` - in whatever form the test is written (guard clause, nesting,
+        # if/else, fall-through); they are cut, and the normal exit must then be unreachable without passing the removal
+        def unknown_entry(u, v, lab, fi=fi, table=table, cid=cid) -> bool:
+            if u.kind != "cond" or not isinstance(lab, bool):
+                return False
+            f = fact_of(u.ast, lab)
+            if f.op == "in":
+                return not f.pos and chain(resolve(fi, f.left)) == cid and chain(strip_cast(f.right)) == table
+            got = resolve(fi, f.left)
+            is_get = isinstance(got, ast.Call) and chain(got.func) == f"{table}.get" and chain(resolve(fi, arg(got, 0))) == cid
+            if f.op == "is":
+                return f.pos and is_get and isinstance(f.right, ast.Constant) and f.right.value is None
+            return f.op == "truthy" and not f.pos and is_get
+
+        r = cfg.reach(cut_nodes=pn, cut_edge=unknown_entry, follow_exc=False)
+        ctx.check(cfg.exit not in r, "remove-removes", fi, (pops + dels)[0], f"every normal path of {meth} reaches {table}.pop({cid}, None)",
                   f"{meth} can return without removing the entry (a path around the pop)")
         # the sleep is the configured delay
         for s in calls(fi, "sleep"):
-            ctx.check(norm(arg(s, 0)) == "self.settings.remove_tunnel_delay", "remove-removes", fi, s, "removal delayed by settings.remove_tunnel_delay only",
-                      "removal sleeps for something other than the configured delay")
+            ctx.check("self.settings.remove_tunnel_delay" in _texts(fi, arg(s, 0)), "remove-removes", fi, s,
+                      "removal delayed by settings.remove_tunnel_delay only", "removal sleeps for something other than the configured delay")
         ctx.check("task" in fi.decorator_names(), "remove-removes", fi, fi.node, f"{meth} runs as a tracked task", f"{meth} is not a @task")
     fi = repo.method("TunnelCommunity", "remove_exit_socket", TC)
     cfg = ctx.cfg(fi)
@@ -227,37 +496,70 @@ def rule_limits(ctx: Ctx) -> None:
     # ---- relay_early
     rc = repo.method("PythonCryptoEndpoint", "relay_cell", CR)
     cfgr = ctx.cfg(rc)
-    A, B = "cell.relay_early", "next_relay.relay_early_count >= self.max_relay_early"
+    # assumption "the cell carries relay_early and the route's budget is used up": the send must be unreachable, whatever
+    # else is tested on the way (an extra conjunct such as a direction test leaves the send reachable and is reported)
+    k_early = _K("truthy", "cell.relay_early")
+    k_left = _K("lt", "next_relay.relay_early_count", "self.max_relay_early")
+    spent = _World(rc, cfgr, {k_early: True, k_left: False})
     for s in ctx.anchor(calls(rc, "self.endpoint.send"), "send in relay_cell"):
-        bad = _path_with(cfgr, s, [(A, True), (B, True)])
-        ctx.check(_has_cond(cfgr, A) and _has_cond(cfgr, B) and not bad, "relay-early-budget", rc, s,
+        live = any(n in cfgr.reach() for n in cfgr.nodes_for(s))
+        ctx.check(live and not spent.reaches(s), "relay-early-budget", rc, s,
                   "no path forwards a relay_early cell once the relay's budget is used up",
-                  "a relay forwards relay_early cells beyond max_relay_early")
-        incs = [n for st in walk_no_nested(rc.node) if isinstance(st, ast.AugAssign) and norm(st.target) == "next_relay.relay_early_count"
-                and isinstance(st.op, ast.Add) and const_value(st.value) == 1 for n in cfgr.nodes_for(st)]
+                  "a relay forwards relay_early cells beyond max_relay_early (the send is reachable with relay_early set and "
+                  "relay_early_count >= max_relay_early)")
+        incs = [n for st in walk_no_nested(rc.node) if isinstance(st, ast.stmt) and _is_increment(st, "next_relay.relay_early_count")
+                for n in cfgr.nodes_for(st)]
         ok = bool(incs) and all(cfgr.always_followed_by(sn, incs) for sn in cfgr.nodes_for(s))
         ctx.check(ok, "relay-early-budget", rc, s, "every forwarded cell increments the relay's relay_early counter",
                   "forwarded relay_early cells are not counted")
     d = single_def(rc, "next_relay")
-    ctx.check(d is not None and norm(d[0]) == "self.relays[cell.circuit_id]", "relay-early-budget", rc, rc.node,
+    ctx.check(d is not None and norm(strip_cast(d[0])) == "self.relays[cell.circuit_id]", "relay-early-budget", rc, rc.node,
               "budget is the one of the route the cell is relayed over", "the relay_early budget of a different route is consulted")
     mre = repo.cls("PythonCryptoEndpoint", CR).methods.get("max_relay_early")
     ok = mre is not None and any(isinstance(r, ast.Return) and norm(r.value) == "self.settings.max_relay_early if self.settings else 8" for r in ast.walk(mre.node))
     ctx.check(ok, "relay-early-budget", mre or rc, (mre or rc).node, "max_relay_early is the configured setting (default 8)",
               "the relay_early budget is not the configured number")
+    # ---- originator: flag == (extend or budget left), decided as a truth table over the two conditions
     sc = repo.method("PythonCryptoEndpoint", "send_cell", CR)
+    cfgs2 = ctx.cfg(sc)
     sts = [s for s, t in stores(sc, "cell.relay_early")]
-    ok = len(sts) == 1 and norm(sts[0].value) == "cell.message[0] == 4 or circuit.relay_early_count < self.max_relay_early"
-    ctx.check(ok, "relay-early-budget", sc, sc.node, "originator marks relay_early only for extend or while its own budget lasts",
+    cnt = [s for s, t in stores(sc, "circuit.relay_early_count")]
+    k_ext = _K("eq", "cell.message[0]", "4")
+    k_own = _K("lt", "circuit.relay_early_count", "self.max_relay_early")
+    marks = len(sts) == 1 and isinstance(sts[0], ast.Assign) and len(sts[0].targets) == 1
+    counts = marks and len(cnt) == 1 and _is_increment(cnt[0], "circuit.relay_early_count")
+    if marks:
+        stn = cfgs2.nodes_for(sts[0])
+        after = [v for n in stn for v, lab in n.succ if lab != "exc"]
+        incn = [n for c in cnt for n in cfgs2.nodes_for(c)]
+        sendn = [n for c in calls(sc, "self.endpoint.send") for n in cfgs2.nodes_for(c)]
+        for ext in (True, False):
+            for own in (True, False):
+                w = _World(sc, cfgs2, {k_ext: ext, k_own: own})
+                vals = set()
+                for n in stn:
+                    vals |= w.ev(sts[0].value, n)
+                marks = marks and vals == {ext or own}
+                if not counts:
+                    continue
+                if ext or own:
+                    # no normal run  store -> send -> exit  that avoids the increment
+                    r1 = w.reach(after, cut_nodes=incn, follow_exc=False)
+                    for sn in [n for n in sendn if n in r1]:
+                        if cfgs2.exit in w.reach([v for v, lab in sn.succ if lab != "exc"], cut_nodes=incn, follow_exc=False):
+                            counts = False
+                elif any(n in w.reach(after, follow_exc=False) for n in incn):
+                    counts = False
+    ctx.check(marks, "relay-early-budget", sc, sc.node, "originator marks relay_early exactly for extend or while its own budget lasts",
               "the originator marks cells relay_early without budget")
-    incs = [st for st in walk_no_nested(sc.node) if isinstance(st, ast.AugAssign) and norm(st.target) == "circuit.relay_early_count"]
-    ok = len(incs) == 1 and any(f.op == "truthy" and f.pos and chain(f.left) == "cell.relay_early" for f in facts_at(ctx.cfg(sc), incs[0]))
-    ctx.check(ok, "relay-early-budget", sc, sc.node, "originator counts every relay_early cell it sends", "originator's relay_early cells are not counted")
+    ctx.check(counts, "relay-early-budget", sc, sc.node, "originator counts every relay_early cell it sends (and only those)",
+              "originator's relay_early cells are not counted")
     pc = repo.method("PythonCryptoEndpoint", "process_cell", CR)
     cfgp = ctx.cfg(pc)
+    bare_extend = _World(pc, cfgp, {k_early: False, k_ext: True})
     for s in calls(pc, "self.tunnel_community.on_packet"):
-        bad = _path_with(cfgp, s, [("cell.relay_early", False), ("cell.message[0] == 4", True)])
-        ctx.check(_has_cond(cfgp, "cell.message[0] == 4") and not bad, "relay-early-budget", pc, s,
+        live = any(n in cfgp.reach() for n in cfgp.nodes_for(s))
+        ctx.check(live and not bare_extend.reaches(s), "relay-early-budget", pc, s,
                   "an extend that arrives without relay_early is dropped", "extend cells are accepted without the relay_early flag")
 
 
@@ -290,9 +592,86 @@ def rule_retry(ctx: Ctx) -> None:
             ctx.check(ok, "retry-gives-up", fi, c, f"{meth}: the new retry cache gets max_tries - 1", f"{meth} does not decrease the remaining tries")
             ctx.check(norm(arg(c, 5)) == "self.settings.next_hop_timeout", "retry-gives-up", fi, c, "attempt timeout is settings.next_hop_timeout",
                       "attempt timeout is not the configured one")
+    _rule_watchdog(ctx)
     td = repo.cls("RetryRequestCache", CA).methods.get("timeout_delay")
     ok = td is not None and any(isinstance(r, ast.Return) and norm(r.value) == "float(self.timeout)" for r in ast.walk(td.node))
     ctx.check(ok, "retry-gives-up", td or ot, (td or ot).node, "retry cache times out after the given timeout", "retry cache timeout is not the configured one")
+
+
+def _retry_cache_pops(repo):
+    """(function, call) of every `<request cache>.pop(RetryRequestCache, ...)` in the anonymization package."""
+    for m, fi, c in repo.callers_of_name("pop"):
+        if fi is None or not m.relpath.startswith("ipv8/messaging/anonymization/"):
+            continue
+        if arg(c, 0) is not None and chain(resolve(fi, arg(c, 0))) == "RetryRequestCache":
+            yield fi, c
+
+
+def _rule_watchdog(ctx: Ctx) -> None:
+    """
+    The RetryRequestCache of a circuit under construction is the only timer that gives up on it (the inactivity sweep looks at
+    READY circuits only, an unanswered or rejected hop produces no message at all; what remains is the one-hour age limit).  So it may be taken out of the
+    request cache only (a) by remove_circuit itself, (b) when the circuit is READY, or (c) when every normal continuation
+    arms a new one (request_cache.add of a fresh RetryRequestCache, directly or through send_initial_create/send_extend) or
+    removes the circuit; and, where the hop's answer is authenticated in the same function, only after that succeeded.
+    """
+    repo = ctx.repo
+    rule = "retry-gives-up"
+
+    def settles(fi: FuncInfo, cfg, rearm) -> list:
+        """CFG nodes of fi after which the circuit is watched again or being removed."""
+        out = []
+        for c in calls(fi):
+            nm = call_name(c)
+            if nm == "remove_circuit":
+                out.extend(cfg.nodes_for(c))
+            elif nm == "add" and (chain(c.func) or "").endswith("request_cache.add"):
+                v = resolve(fi, arg(c, 0))
+                if isinstance(v, ast.Call) and chain(v.func) == "RetryRequestCache":
+                    out.extend(cfg.nodes_for(c))
+            elif nm in rearm and chain(c.func) == f"self.{nm}":
+                out.extend(cfg.nodes_for(c))
+        return out
+
+    # functions that, on every normal path, arm a new retry cache or remove the circuit
+    rearm: set[str] = set()
+    makers = {fi.qualname: fi for m, fi, c in repo.callers_of_name("RetryRequestCache")
+              if fi is not None and m.relpath.startswith("ipv8/messaging/anonymization/") and fi.cls is not None}
+    changed = True
+    while changed:
+        changed = False
+        for fi in makers.values():
+            if fi.name in rearm:
+                continue
+            cfg = ctx.cfg(fi)
+            if cfg.exit not in cfg.reach(cut_nodes=settles(fi, cfg, rearm), follow_exc=False):
+                rearm.add(fi.name)
+                changed = True
+    n = 0
+    for fi, c in _retry_cache_pops(repo):
+        n += 1
+        cfg = ctx.cfg(fi)
+        if fi.name == "remove_circuit":
+            ctx.instance(rule, fi.where, "retry cache dropped by remove_circuit itself", line=c.lineno)
+            continue
+        fs = facts_at(cfg, c)
+        ready = any(f.op == "eq" and f.pos and "CIRCUIT_STATE_READY" in (norm(f.left), norm(f.right)) and
+                    (norm(f.left).endswith(".state") or norm(f.right).endswith(".state")) for f in fs)
+        tg = settles(fi, cfg, rearm)
+        followed = bool(tg) and all(cfg.always_followed_by(pn, [t for t in tg if t is not pn]) or pn in tg for pn in cfg.nodes_for(c))
+        ctx.check(ready or followed, rule, fi, c,
+                  f"{fi.name}: the build watchdog is taken out only for a READY circuit or when a new one is armed / the circuit removed on every continuation",
+                  f"{fi.qualname} pops the circuit's RetryRequestCache although a normal continuation neither arms a new one nor removes the circuit: "
+                  "a circuit that is still being built loses the only timer that gives up on it (the inactivity sweep skips non-READY circuits), so its "
+                  "entry outlives the build timeout and is left to the one-hour age limit",
+                  [str(f) for f in fs])
+        ver = [x for v in calls(fi) if call_name(v) == "verify_and_generate_shared_secret" for x in cfg.nodes_for(v)]
+        if ver:
+            ok = all(cfg.must_complete(pn, ver) for pn in cfg.nodes_for(c))
+            ctx.check(ok, rule, fi, c, f"{fi.name}: the watchdog is released only after the hop's answer was verified",
+                      f"{fi.qualname} pops the RetryRequestCache before verify_and_generate_shared_secret has succeeded: if verification fails or raises, "
+                      "nothing times the half-built circuit out any more")
+    ctx.floor("retry-gives-up.watchdog-pops", n, 4)
 
 
 HEARTBEAT_CALLERS = {
@@ -387,6 +766,14 @@ WITNESSES = [
     {"name": "relay_early counter only on rendezvous", "file": CR, "rule": "relay-early-budget",
      "old": "        next_relay.bytes_up += len(packet)\n        next_relay.relay_early_count += 1",
      "new": "        next_relay.bytes_up += len(packet)\n        if next_relay.rendezvous_relay:\n            next_relay.relay_early_count += 1"},
+    {"name": "relay_early budget only for forward routes", "file": CR, "rule": "relay-early-budget",
+     "old": "        if cell.relay_early and next_relay.relay_early_count >= self.max_relay_early:",
+     "new": "        if cell.relay_early and next_relay.direction == FORWARD and next_relay.relay_early_count >= self.max_relay_early:"},
+    {"name": "originator budget off by one", "file": CR, "rule": "relay-early-budget",
+     "old": "circuit.relay_early_count < self.max_relay_early", "new": "circuit.relay_early_count <= self.max_relay_early"},
+    {"name": "retry cache released before the hop is verified", "file": TC, "rule": "retry-gives-up",
+     "old": "        try:\n            shared_secret = self.crypto.verify_and_generate_shared_secret(",
+     "new": "        self.request_cache.pop(RetryRequestCache, circuit.circuit_id)\n        try:\n            shared_secret = self.crypto.verify_and_generate_shared_secret("},
     {"name": "retry does not decrease tries", "file": TC, "rule": "retry-gives-up",
      "old": "        cache = RetryRequestCache(self, circuit, alt_first_hops, max_tries - 1,", "new": "        cache = RetryRequestCache(self, circuit, alt_first_hops, max_tries,"},
     {"name": "retry scheduled without tries", "file": CA, "rule": "retry-gives-up",
